@@ -1259,5 +1259,158 @@ theorem run_bisim {σ : Type} {W : World} (hW : W.Ok) {D : Decoder σ ℝ} {pos 
       · simp only [List.filterMap_cons, staticOp]; exact h1
       · rw [Sys.runOps, hs]; simp only [h2, List.nil_append]
 
+
+/-! ### the two freshly built sounds are related -/
+
+/-- the world a static sound data describes (forwards) -/
+noncomputable def worldOf (d : StaticSoundData ℝ) : World :=
+  { frames := d.frames, slice := d.slice,
+    t0 := { position := d.settings.startPosition.intoSamples d.sampleRate,
+            loopRegion := d.settings.loopRegion.map (fun r => r.toSamples d.sampleRate
+              (match d.slice with | some (a, b) => b - a | none => d.frames.size)),
+            playing := true } }
+
+/-- the streaming data describes the same sound as the static data -/
+structure SameSound {σ : Type} (d : StaticSoundData ℝ) (sd : StreamingSoundData σ ℝ) : Prop where
+  sampleRate : sd.sampleRate = d.sampleRate
+  decFrames : sd.decFrames = d.frames.size
+  slice : sd.slice = d.slice
+  startTime : sd.settings.startTime = d.settings.startTime
+  startPosition : sd.settings.startPosition = d.settings.startPosition
+  loopRegion : sd.settings.loopRegion = d.settings.loopRegion
+  volume : sd.settings.volume = d.settings.volume
+  playbackRate : sd.settings.playbackRate = d.settings.playbackRate
+  panning : sd.settings.panning = d.settings.panning
+  fadeInTween : sd.settings.fadeInTween = d.settings.fadeInTween
+  forwards : d.settings.reverse = false
+
+theorem World.staticStops_three (W : World) (hW : W.Ok) : W.staticStops 3 = false := by
+  have h0 : W.pl 0 = true := hW.playing
+  unfold World.staticStops
+  cases h2 : W.pl 2 with
+  | true => have := W.pl_of_later 2 2 (Nat.le_refl _) h2; simp [World.tue, h2]
+  | false =>
+    cases h1 : W.pl 1 with
+    | true => simp [World.tue, h2, h1]
+    | false => simp [World.tue, h2, h1, h0]
+
+theorem sched_new {σ : Type} {D : Decoder σ ℝ} {src : List (Frame ℝ)} {pos : σ → Nat} {good : σ → Prop}
+    (C : Dec.Contract D src pos good) (s0 : σ) (slice : Option (Nat × Nat))
+    (hs : match slice with | some (a, b) => a ≤ b ∧ b ≤ src.length | none => True) (p : Nat) (hp : p ≤ src.length) :
+    ∃ j s', Dec.Sched.new D s0 slice src.length p
+        = .ok (⟨slice, match slice with | some (a, b) => b - a | none => src.length⟩, ⟨s', j, none, p, true⟩) ∧
+      Dec.Inv src pos good (⟨s', j, none, p, true⟩ : Dec.Sched σ ℝ) := by
+  obtain ⟨j, s', hseek, _, hpos, hgood⟩ := C.seek_ok s0 p hp
+  refine ⟨j, s', ?_, ⟨hgood, hpos.symm, fun c hc => by cases hc⟩⟩
+  unfold Dec.Sched.new
+  cases slice with
+  | none => simp only [hseek]
+  | some ab =>
+    obtain ⟨x, y⟩ := ab
+    simp only [] at hs
+    have : ¬ y < x := by omega
+    simp only [this, if_false, hseek]
+
+/-- **`StaticSoundData::into_sound` and `StreamingSoundData::split` start related**: the static window
+    `[silence, F(p), F(p+1), F(p+2)]` and the ring holding the pre-seeded silent frame -/
+theorem new_bisim {σ : Type} {D : Decoder σ ℝ} {pos : σ → Nat} {good : σ → Prop}
+    (d : StaticSoundData ℝ) (sd : StreamingSoundData σ ℝ) (C : Dec.Contract D d.frames.toList pos good)
+    (hsame : SameSound d sd) (hW : (worldOf d).Ok)
+    (hstart : d.settings.startPosition.intoSamples d.sampleRate ≤ d.frames.size)
+    (hsign : signNeg (Parameter.new d.settings.playbackRate (1.0 : ℝ)).value = false) :
+    ∃ st s, StaticSound.new d = .ok st ∧ Sys.new D sd = .ok s ∧ Bisim (worldOf d) pos good st s 0 1 := by
+  set W := worldOf d with hWdef
+  have hn : numFrames d.frames.size d.slice = .ok W.n := by
+    have hs : (match d.slice with | some (a, b) => a ≤ b ∧ b ≤ d.frames.size | none => True) := hW.slice_ok
+    unfold numFrames World.n
+    show (match d.slice with | some (s, e) => _ | none => _) = _
+    cases hsl : d.slice with
+    | none => simp [hWdef, worldOf, hsl]
+    | some ab =>
+      obtain ⟨x, y⟩ := ab
+      rw [hsl] at hs
+      simp [hWdef, worldOf, hsl, hs.1]
+  have hWn : W.n = (match d.slice with | some (a, b) => b - a | none => d.frames.size) := rfl
+  -- the static sound
+  obtain ⟨s0, hinit, hs0⟩ : ∃ s0, init d = .ok s0 ∧ s0 = ({ cmds := {}, sampleRate := d.sampleRate, frames := d.frames, slice := d.slice, reverse := d.settings.reverse, core := SoundCore.new d.settings.startTime d.settings.fadeInTween, resampler := Resampler.new W.t0.position, transport := W.t0, frac := (0.0 : ℝ), volume := Parameter.new d.settings.volume Psm.identityDb, playbackRate := Parameter.new d.settings.playbackRate (1.0 : ℝ), panning := Parameter.new d.settings.panning (0.0 : ℝ), sharedPosition := (KOps.ofNat W.t0.position : ℝ) / (KOps.ofNat d.sampleRate : ℝ) } : StaticSound ℝ) := by
+    refine ⟨_, ?_, rfl⟩
+    unfold init
+    rw [hn]
+    simp only [hsame.forwards, Transport.new, Bool.false_eq_true, if_false]
+    rfl
+  have hat0 : StaticAt W s0 0 := by
+    rw [hs0]
+    exact { frames := rfl, slice := rfl, reverse := hsame.forwards, transport := rfl
+            resampler := by simp [World.resAt, World.vFrame, World.vIndex, World.tue, Resampler.new] }
+  have hsign0 : signNeg s0.playbackRate.value = false := by rw [hs0]; exact hsign
+  have hnew : StaticSound.new d = updN 3 s0 := by
+    unfold StaticSound.new
+    rw [hinit]
+    simp only [updN_succ]
+    cases s0.updatePosition with
+    | error f => rfl
+    | ok a =>
+      simp only []
+      cases a.updatePosition with
+      | error f => rfl
+      | ok b =>
+        simp only []
+        cases b.updatePosition <;> rfl
+  have hupd := static_updN hW 3 hat0 hsign0
+  have hst3 : W.staticStops (0 + 3) = false := W.staticStops_three hW
+  simp only [hst3, Bool.false_eq_true, and_false, if_false] at hupd
+  -- the streaming sound
+  have hslice : (match sd.slice with | some (a, b) => a ≤ b ∧ b ≤ d.frames.toList.length | none => True) := by
+    rw [hsame.slice]
+    have hs : (match d.slice with | some (a, b) => a ≤ b ∧ b ≤ d.frames.size | none => True) := hW.slice_ok
+    cases hsl : d.slice with
+    | none => trivial
+    | some ab => obtain ⟨x, y⟩ := ab; rw [hsl] at hs; simpa using hs
+  obtain ⟨j, s', hsched, hinv⟩ := sched_new C sd.dec sd.slice hslice
+    (sd.settings.startPosition.intoSamples sd.sampleRate)
+    (by rw [hsame.startPosition, hsame.sampleRate]; simpa using hstart)
+  have hlen : d.frames.toList.length = sd.decFrames := by rw [hsame.decFrames]; simp
+  rw [hlen] at hsched
+  refine ⟨_, ?s, by rw [hnew]; exact hupd, ?hsys, ?hB⟩
+  case hsys =>
+    unfold Sys.new
+    dsimp only
+    rw [hsched]
+    simp only [Transport.new, Bool.false_eq_true, if_false]
+    rfl
+  case hB =>
+    subst hs0
+    have hnumF : (match sd.slice with | some (a, b) => b - a | none => sd.decFrames) = W.n := by
+      rw [hsame.slice, hsame.decFrames]
+      show _ = World.n (worldOf d)
+      unfold World.n worldOf
+      cases d.slice with
+      | none => rfl
+      | some ab => cases ab; rfl
+    have htr : ({ position := sd.settings.startPosition.intoSamples sd.sampleRate, loopRegion := sd.settings.loopRegion.map (fun r => r.toSamples sd.sampleRate (match sd.slice with | some (a, b) => b - a | none => sd.decFrames)), playing := true } : Transport) = W.t0 := by
+      rw [hsame.startPosition, hsame.sampleRate, hsame.loopRegion, hnumF]
+      rfl
+    exact {
+      sAt := { frames := rfl, slice := rfl, reverse := hsame.forwards, transport := rfl, resampler := rfl }
+      tIn := { cfg_slice := hsame.slice, cfg_n := hnumF, inv := hinv }
+      tAt := { ring := by simp [World.ringSlice, World.ringSeq], transport := htr, m_pos := Nat.le_refl _,
+               played := fun k hk => by omega
+               reached := by show false = !W.pl 0; rw [show W.pl 0 = true from hW.playing]; rfl }
+      frac := rfl
+      sampleRate := hsame.sampleRate.symm
+      volume := by show Parameter.new _ _ = Parameter.new _ _; rw [hsame.volume]
+      playbackRate := by show Parameter.new _ _ = Parameter.new _ _; rw [hsame.playbackRate]
+      panning := by show Parameter.new _ _ = Parameter.new _ _; rw [hsame.panning]
+      core := by show SoundCore.new _ _ = SoundCore.new _ _; rw [hsame.startTime, hsame.fadeInTween]
+      cmds := rfl
+      noSeek := ⟨rfl, rfl, rfl⟩
+      frac_nonneg := by show (0 : ℝ) ≤ (0.0 : ℝ); simp
+      frac_lt := by show (0.0 : ℝ) < 1; simp
+      inSync := SoundCore.new_inSync _ _
+      endStopped := fun h _ => by cases h
+      a_le := fun _ => by omega
+      noErr := rfl
+      cap := rfl }
+
 end Streaming
 end K
